@@ -51,12 +51,24 @@ class Target:
         else:
             c.seq += 1
         c.stats["evals_" + kind] += 1
+        if c.eval_budget is not None:
+            c.eval_budget -= 1
+            if c.eval_budget < 0:
+                c.eval_budget = None
+                raise _ctx.Runaway("evaluation budget of the operation exhausted")
         cost = self.cost if self.cost is not None else (c.eval_cost if kind == "post" else c.grad_cost)
         if c.sim is not None:
             if cost > 0:
                 c.sim.pause(cost)
-        elif cost > 0 and getattr(c, "clock", None) is not None:
-            c.clock.advance(cost)
+        elif c.clock is not None:
+            if kind == "post":
+                c.clock.note_eval()
+                extra = c.eval_stalls.get(c.stats["evals_post"])
+                if extra:
+                    cost = cost * extra
+                    c.stats["fault_slow_evaluation"] += 1
+            if cost > 0:
+                c.clock.advance(cost)
 
     # -- to be provided
     def logpdf(self, th):
